@@ -46,4 +46,24 @@ CHECKS = {
         design_ref="DESIGN.md section 5, C10",
         note="Trusted: TLC; Geometry.tla (internal consistency GeoSane checked by TLC); harness bit-mask encoding of answers.",
         technique="TLA+ geometry spec; exhaustive dump of the real tables validated by TLC (trace validation)"),
+    "C11": dict(
+        text="Zobrist.tla: a position is a set of features, the hash the XOR of one key per feature (counters are not features). TLC "
+             "model-checks that the feature map separates every explored position from all its single-component perturbations. For many "
+             "fresh key draws the harness recovers the 837 keys through the public hash() and logs positions reached by make_move, the "
+             "same positions re-built with other counters, transpositions and every single-component perturbation; TLC validates: "
+             "position -> hash is a function and injective on everything seen, every perturbation changes the hash, hash = XOR of "
+             "feature keys, and the key-level separation conditions that extend this to all positions under that draw.",
+        design_ref="DESIGN.md section 5, C11",
+        note="Decided per drawn key set (sampled). 'Same hash exactly when same position' cannot hold literally for a 64-bit hash; decided "
+             "is: XOR structure + pairwise-distinct non-zero keys + no collision on everything explored. If the XOR structure does not "
+             "hold the key-level checks are skipped (SPEC-DRIFT) and only the sampled semantic checks decide.",
+        technique="TLA+ hash spec; TLC model check of the feature map; TLC trace validation of hashes recorded from the real ZobristTable"),
+    "C14": dict(
+        text="Eval.tla states the required relations (antisymmetric under side swap, invariant under mirror, bounded by half the search "
+             "window, pure). Positions are generated by the specification (random games, seeds, extremal material); the harness evaluates "
+             "p, SwapSide(p), Mirror(p), p on ONE Evaluator in random interleavings; TLC validates the transforms against its own "
+             "definitions and the relations on every event (EvalTrace.tla), keeping a memo of all values for purity.",
+        design_ref="DESIGN.md section 5, C14",
+        note="Numeric content of the evaluation is not specified. Positions sampled; bound = 16383.",
+        technique="TLA+ relations; specification-generated positions evaluated by the real Evaluator; TLC trace validation"),
 }
